@@ -446,6 +446,13 @@ pub fn product_bfs(
         stats.states += 1;
         frontier.push_back(vec![]);
     }
+    // horizon: collector steps never change what the mutator does (the merge argument), so every schedule
+    // finishes after exactly as many mutator steps as the collection-disabled run; a state beyond that which
+    // has not finished means a collector step changed the mutator's course (e.g. a lost message or wake-up)
+    let horizon: Option<u32> = {
+        let (o, n) = reference(prog, 1_000_000);
+        if matches!(o.end, Some(End::StepCap)) { None } else { Some(n) }
+    };
     'outer: while let Some(h) = frontier.pop_front() {
         let s = replay(prog, &h);
         let acts = s.enabled(max_cycles);
@@ -462,6 +469,21 @@ pub fn product_bfs(
                 }
                 *stats.outcomes.entry("violation".into()).or_insert(0) += 1;
                 continue; // do not expand violating states
+            }
+            if let Some(hz) = horizon {
+                if !s2.terminal() && s2.msteps > hz {
+                    if cex.len() < 5 {
+                        cex.push(Counterexample {
+                            history: h2.clone(),
+                            what: format!(
+                                "after {} mutator steps the program has not finished; the collection-disabled run finishes after {hz} steps, so a collector step changed the mutator's course (emits so far {:?})",
+                                s2.msteps, s2.host.emits
+                            ),
+                        });
+                    }
+                    *stats.outcomes.entry("violation".into()).or_insert(0) += 1;
+                    continue;
+                }
             }
             if s2.terminal() {
                 stats.maximal_paths += 1;
